@@ -54,6 +54,25 @@ def gen(rng, tier, n):
     return ops + iops
 
 
+def alias_case(rng, props):
+    """The nested schema's order is a strict prefix of the parent's order (the harness lets the two slices share one backing array,
+    as order[:k] and order do) and the nested schema has properties outside its order."""
+    order = list(dict.fromkeys(props))
+    k = rng.randint(1, len(order) - 1)
+    child_props = order[:k] + ["zz1", "zz0"]
+    nodes = [{"Properties": [], "PropertyOrder": order}]
+    for pn in props:
+        if pn == props[0]:
+            nodes.append({"Properties": [[c, len(props) + 1 + i] for i, c in enumerate(child_props)], "PropertyOrder": order[:k]})
+        else:
+            nodes.append({"Type": "string"})
+        nodes[0]["Properties"].append([pn, len(nodes) - 1])
+    for _ in child_props:
+        nodes.append({"Type": "number"})
+    return {"op": "marshal", "args": {"desc": {"nodes": nodes, "root": 0}},
+            "meta": {"props": props, "order": order, "nt": True, "nested": None, "alias": True}}
+
+
 def _gen(rng, tier, n):
     ops = []
     base = NAMES[:4]
@@ -82,22 +101,7 @@ def _gen(rng, tier, n):
                         o2.append(k)
                 order = o2
         if rng.random() < 0.12 and len(props) >= 2:
-            # the nested schema's order is a strict prefix of the parent's order (the harness lets the two slices share one backing
-            # array, as order[:k] and order do) and the nested schema has properties outside its order
-            order = list(dict.fromkeys(props))
-            k = rng.randint(1, len(order) - 1)
-            child_props = order[:k] + ["zz1", "zz0"]
-            nodes = [{"Properties": [], "PropertyOrder": order}]
-            for pn in props:
-                if pn == props[0]:
-                    nodes.append({"Properties": [[c, len(props) + 1 + i] for i, c in enumerate(child_props)], "PropertyOrder": order[:k]})
-                else:
-                    nodes.append({"Type": "string"})
-                nodes[0]["Properties"].append([pn, len(nodes) - 1])
-            for _ in child_props:
-                nodes.append({"Type": "number"})
-            ops.append({"op": "marshal", "args": {"desc": {"nodes": nodes, "root": 0}},
-                        "meta": {"props": props, "order": order, "nt": True, "nested": None, "alias": True}})
+            ops.append(alias_case(rng, props))
             continue
         nested = rng.choice(props) if props and rng.random() < 0.3 else None
         ops.append({"op": "marshal", "args": {"desc": mk(props, order, nested)},
